@@ -68,8 +68,10 @@ CLAIMED.update({
                 "per group do) and EVERY finite sequence of operations — assignment of any value to any field, attribute reads, decoding of ANY byte string into the instance, instance from_dict, "
                 "copy, deepcopy, pickle round trip, observers — the invariant 'every member of a group other than the selected one is unset' holds afterwards (induction over the history, "
                 "one preservation lemma per operation). Corollaries: assigning a member (its default included) selects it; reading any other member raises; an unselected member contributes "
-                "no bytes to the encoding. The JSON half (to_dict keys) is checked by the oracle on the implementation.",
-        "note": TB + "constructor calls naming two members of one group are outside the property's domain (\"the member set last\" is undefined); to_dict output is observed, modelled under C04.",
+                "no bytes to the encoding. JSON half, proved: json_exclusive (for every schema whose oneof members are as protoc admits them, every casing, every instance: a member that is not the selected one has no "
+                "entry in to_dict / to_json, the selected member has exactly one — its default value included — unless it holds None in a message / wrapper / 64-bit / enum field, and any member with an entry is "
+                "which_one_of's answer), json_exclusive_after_history / _from_fresh (the same after ANY operation history).",
+        "note": TB + "constructor calls naming two members of one group are outside the property's domain (\"the member set last\" is undefined); to_dict is the C04 model (BpModel/Json.lean), tied to the implementation by C04's correspondence.",
         "technique": "Lean 4 proof (state-machine invariant, induction over operation histories) + lock-step differential correspondence of random histories",
         "design_ref": "DESIGN.md §7 C07",
     },
@@ -119,9 +121,11 @@ CLAIMED.update({
                 "integer / bool / string keys and scalar, message or Timestamp / Duration values; arbitrary unknown fields at every level) parse(bytes(m)) succeeds, has the same class, oneof selection and unknown fields "
                 "at every level, holds in every slot an equivalent value or (where the original emitted no byte) the unset default, and encodes to the same bytes; proved by strong induction on the "
                 "decoder's nesting fuel (the payload of a nested record is strictly shorter than the record) over a per-slot decoder-state invariant. MsgOk is decided exactly by the executable msgOkB "
-                "(sound and complete), which the driver evaluates on every generated case: the evidence records how many cases lie inside the theorem's hypothesis (all of them at the time of writing). PARTIAL: repeated wrapper "
-                "fields; that every MsgOk value can be encoded (the theorem takes the encoding as a hypothesis); that Python == contains the "
-                "relation ValEqv (it identifies -0.0 with +0.0 inside wrappers and an empty map-value message with the fresh instance). Those are covered by the differential correspondence and the oracle.",
+                "(sound and complete), which the driver evaluates on every generated case: the evidence records how many cases lie inside the theorem's hypothesis (all of them at the time of writing). "
+                "encodable: every MsgOk value has an encoding (bytes(m) raises nothing on the domain), so roundtrip_total_partial needs no encoding hypothesis beyond the 2^64-byte bound. "
+                "roundtrip_equal / roundtrip_equal_total: the decoded message m' satisfies m == m' and m' == m for the model of Message.__eq__ (msgEq, BpModel/Eq.lean: NaN equals NaN, -0.0 equals +0.0, "
+                "a PLACEHOLDER slot equals the field's default, presence and unknown fields are not compared) and bytes(m') = bytes(m); msgEq itself is compared with the real == on one-field-apart pairs and on "
+                "(m, parse(bytes(m))) in both orders on every run. PARTIAL (names keep the suffix): repeated wrapper fields are outside MsgOk; the 2^64-byte bound.",
         "note": TB + "in-range = WellTyped.lean (ints in the declared range, float32 patterns a Python float can hold, valid UTF-8, datetimes / timedeltas in the protobuf range); encodings shorter than 2^64 bytes; oneof members not `optional` (standard dataclasses); dict keys pairwise different.",
         "technique": "Lean 4 proof (strong induction on decoder fuel; per-slot decoder-state invariant; per-kind record inverses; decidable domain predicate) + differential correspondence + round-trip oracle",
         "design_ref": "DESIGN.md §7 C01, §13.4",
